@@ -157,14 +157,15 @@ func runChild(outFile, mode, dir string, loads int, patterns []string, timeout t
 }
 
 type observed struct {
-	LoadErr      string    `json:"load_err,omitempty"`
-	Runs         int       `json:"runs"`
-	DistinctRuns int       `json:"distinct_runs"`
-	First        *loadObs  `json:"first,omitempty"`
-	Findings     []string  `json:"findings,omitempty"` // Go-side reading of the same predicate, for the reader of a replay
-	Packages     []string  `json:"packages,omitempty"`
-	Roots        []string  `json:"roots,omitempty"`
-	Facts        []string  `json:"failed_trusted_base_tests,omitempty"`
+	LoadErr      string   `json:"load_err,omitempty"`
+	Runs         int      `json:"runs"`
+	DistinctRuns int      `json:"distinct_runs"`
+	First        *loadObs `json:"first,omitempty"`
+	Findings     []string `json:"findings,omitempty"` // Go-side reading of the same predicate, for the reader of a replay
+	Packages     []string `json:"packages,omitempty"`
+	Roots        []string `json:"roots,omitempty"`
+	Facts        []string `json:"failed_trusted_base_tests,omitempty"`
+	ElapsedMS    int64    `json:"elapsed_ms"` // wall time of this case (information only)
 }
 
 func (prop) Run(raw json.RawMessage, scratch string) core.Result {
@@ -173,6 +174,7 @@ func (prop) Run(raw json.RawMessage, scratch string) core.Result {
 	in.norm()
 	var res core.Result
 	var obs observed
+	t0 := time.Now()
 	dir := filepath.Join(scratch, "mod")
 	if err := writeModule(dir, &in); err != nil {
 		res.Observed = observed{LoadErr: "harness: " + err.Error()}
@@ -271,6 +273,7 @@ func (prop) Run(raw json.RawMessage, scratch string) core.Result {
 	case kinds["locate"]:
 		res.Class = "failing:locate"
 	}
+	obs.ElapsedMS = time.Since(t0).Milliseconds()
 	res.Observed = obs
 	res.Coq = coqCase(raw, data, runs)
 
